@@ -31,6 +31,9 @@ type bvert struct {
 type bspec struct {
 	V      []bvert `json:"v"`
 	Closed bool    `json:"closed"`
+	// Before counts renderings of the same Bezier object (Polygon / Mesh2D calls) made BEFORE the one
+	// that is checked: the curve an object describes must not depend on how often it was rendered.
+	Before int `json:"before,omitempty"`
 }
 
 func (s bspec) run() ([]pt, error) {
@@ -59,6 +62,17 @@ func (s bspec) run() ([]pt, error) {
 	}
 	if s.Closed {
 		b.Close()
+	}
+	for i := 0; i < s.Before; i++ {
+		if i%2 == 0 {
+			if _, err := b.Polygon(); err != nil {
+				return nil, err
+			}
+		} else {
+			// Mesh2D renders the curve and then builds a polygon shape from it; the latter legitimately
+			// fails for open or two-vertex outlines, which is not this check's subject
+			b.Mesh2D()
+		}
 	}
 	p, err := b.Polygon()
 	if err != nil {
@@ -531,6 +545,9 @@ func TestBezier(t *testing.T) {
 				}
 			}
 		}
+		// the object may already have been rendered (Polygon / Mesh2D) before the rendering that is checked
+		spec.Before = []int{0, 0, 1, 2}[rapid.IntRange(0, 3).Draw(t, "rendered-before")]
+		rec.Add(fmt.Sprintf("bezier:rendered-before=%d", spec.Before), 1)
 		runBezierCase(t, rec, spec, want, mode, func(s int) string { return plans[s].style })
 	})
 }
